@@ -3,7 +3,7 @@
    every index and every draw sequence satisfying the generator's contract (Spec.draws_ok). *)
 From Coq Require Import ZArith QArith List Bool Lia Lqa.
 Import ListNotations.
-From KD Require Import C11.Model C11.Spec C11.Proofs.
+From KD Require Import C11.Model C11.Spec C11.Heap C11.Proofs C11.HeapProofs.
 Open Scope Z_scope.
 
 (* label vectors are non-negative, sum to one and have n_classes entries *)
@@ -89,8 +89,9 @@ Theorem partner_in_range : forall ds c idx dr s rest p w,
 Proof. exact partner_in_range_l. Qed.
 Print Assumptions partner_in_range.
 
-(* the partner may be sample idx itself (integers(len) includes idx): the result is then sample idx -- data and label
-   (the wrapped dataset hands out a fresh tensor per call, see ASSUMPTIONS) *)
+(* the partner may be sample idx itself (integers(len) includes idx): the result is then sample idx -- data and label.
+   Value level; that this is also what happens when the wrapped dataset hands out the SAME tensor for x and x2 is
+   self_partner_on_aliasing_dataset below *)
 Theorem self_partner_returns_sample : forall ds c idx dr s rest w,
   draws_ok dr -> getitem_xclass ds c idx dr = Ok (s, rest) -> s_mix s = Some (idx, w) ->
   same_tensor (s_x s) (ds_x ds idx) /\ Forall2 Qeq (s_cls s) (label_vector ds idx).
@@ -104,6 +105,57 @@ Theorem request_ctx_describes_requested_sample : forall ds c G toks idx vals cal
   mw_getitem ds c G toks idx = Ok (vals, calls) -> Forall (fun cl => ctx_describes idx (c_sample cl)) calls.
 Proof. exact request_ctx_describes_l. Qed.
 Print Assumptions request_ctx_describes_requested_sample.
+
+(* ---------- aliasing: the wrapped dataset may hand out its stored tensors (or views of them) ---------- *)
+(* the statements of getitem_xclass executed on a heap of tensor objects (Heap.v) return the tensor the value-level model
+   computes -- and raise where it raises -- whether getitem_x hands out the stored tensor or a clone: all theorems above
+   hold for aliasing datasets as well *)
+Theorem heap_model_agrees_with_value_model : forall st c idx dr h, store_wf st h ->
+  match getitem_xclass (ds_of_store st h) c idx dr with
+  | Ok (s, _) => exists a, snd (getitem_xclass_h st c idx dr h) = Ok a
+                           /\ deref (fst (getitem_xclass_h st c idx dr h)) a = s_x s
+  | Err e => snd (getitem_xclass_h st c idx dr h) = Err e
+  end.
+Proof. exact getitem_h_functional_l. Qed.
+Print Assumptions heap_model_agrees_with_value_model.
+
+(* the wrapped dataset is unchanged after ANY history of requests (any indices, any draws, returning or raising):
+   every tensor that existed before -- in particular every stored sample -- is what it was *)
+Theorem wrapped_dataset_unchanged_after_any_history : forall st c reqs h, store_wf st h ->
+  (forall a, (a < length h)%nat -> deref (fst (run_history st c reqs h)) a = deref h a) /\
+  (forall k, ds_x (ds_of_store st (fst (run_history st c reqs h))) k = ds_x (ds_of_store st h) k).
+Proof. intros st c reqs h Hwf. split; [apply store_unchanged_l|apply dataset_unchanged_l]; exact Hwf. Qed.
+Print Assumptions wrapped_dataset_unchanged_after_any_history.
+
+(* every request of a history returns -- and the final heap still holds -- what the value-level model computes on the
+   dataset as it was BEFORE the history: requests do not influence each other *)
+Theorem history_requests_independent : forall st c reqs h, store_wf st h ->
+  Forall2 (fun q r => match getitem_xclass (ds_of_store st h) c (fst q) (snd q) with
+                      | Ok (s, _) => exists a, r = Ok a /\ deref (fst (run_history st c reqs h)) a = s_x s
+                      | Err e => r = Err e
+                      end) reqs (snd (run_history st c reqs h)).
+Proof. intros st c reqs h Hwf. exact (proj2 (run_history_l st c reqs h Hwf)). Qed.
+Print Assumptions history_requests_independent.
+
+(* the same request (same index, same draws: a seeded wrapper) made twice anywhere in a history gives equal tensors *)
+Theorem repeated_requests_equal : forall st c reqs h i j q a b, store_wf st h ->
+  nth_error reqs i = Some q -> nth_error reqs j = Some q ->
+  nth_error (snd (run_history st c reqs h)) i = Some (Ok a) ->
+  nth_error (snd (run_history st c reqs h)) j = Some (Ok b) ->
+  deref (fst (run_history st c reqs h)) a = deref (fst (run_history st c reqs h)) b.
+Proof. exact repeated_requests_equal_l. Qed.
+Print Assumptions repeated_requests_equal.
+
+(* partner == idx on any dataset, also one whose getitem_x returns the same tensor object twice (x2 is x): the returned
+   tensor is sample idx and the stored tensor is untouched (before the repair: 2*lam*(1-lam)*x, see
+   unrepaired_inplace_refuted) *)
+Theorem self_partner_on_aliasing_dataset : forall st c idx dr h s rest w, store_wf st h -> draws_ok dr ->
+  getitem_xclass (ds_of_store st h) c idx dr = Ok (s, rest) -> s_mix s = Some (idx, w) ->
+  exists a, snd (getitem_xclass_h st c idx dr h) = Ok a
+    /\ same_tensor (deref (fst (getitem_xclass_h st c idx dr h)) a) (deref h (st_addr st idx))
+    /\ deref (fst (getitem_xclass_h st c idx dr h)) (st_addr st idx) = deref h (st_addr st idx).
+Proof. exact self_partner_alias_l. Qed.
+Print Assumptions self_partner_on_aliasing_dataset.
 
 (* ---------- non-vacuity: the premises are satisfiable and the interesting branches are reached ---------- *)
 Definition ds_ex : dataset :=
@@ -182,3 +234,41 @@ Example self_partner_example :
   exists s, getitem_xclass ds_ex c_ex 0 [DUnit (1 # 3); DInt 3 0; DBeta (4 # 5) (1 # 4)] = Ok (s, []) /\
     s_mix s = Some (0%nat, 1 # 4) /\ Forall2 Qeq (flatten (s_x s)) [1; 2; 3; 4; 5; 6]%Q /\ Forall2 Qeq (s_cls s) [1; 0; 0]%Q.
 Proof. eexists. split; [vm_compute; reflexivity|]. split; [reflexivity|]. split; vm_compute; repeat constructor. Qed.
+
+(* ---------- aliasing examples ---------- *)
+(* a dataset that hands out its stored tensors: samples [1;2] and [10;20] at addresses 0 and 1 *)
+Definition h_ex : heap := [of_flat [2]%nat [1; 2]%Q; of_flat [2]%nat [10; 20]%Q].
+Definition st_ex : store :=
+  {| st_len := 2; st_addr := fun k => Nat.min k 1; st_alias := true; st_cls := fun k => LInt (Z.of_nat (Nat.min k 1)); st_ncls := 2 |}.
+Definition c_al : cfg :=
+  {| total_p := 1; cutmix_p := 0; mixup_alpha := Some 1%Q; cutmix_alpha := None; unify := UNone; seed := Some 0; with_ctx := false |}.
+Definition dr_self : list draw := [DUnit (1 # 3); DInt 2 0; DBeta 1 (1 # 4)].
+Definition dr_other : list draw := [DUnit (1 # 3); DInt 2 1; DBeta 1 (1 # 4)].
+
+Example aliasing_premises_satisfiable : store_wf st_ex h_ex /\ draws_ok dr_self /\ draws_ok dr_other.
+Proof.
+  split; [|split].
+  - intro k. simpl. lia.
+  - unfold dr_self. repeat constructor; simpl; try lia; unfold Qle, Qlt; simpl; lia.
+  - unfold dr_other. repeat constructor; simpl; try lia; unfold Qle, Qlt; simpl; lia.
+Qed.
+
+(* the same request three times with another one in between: the results are new tensors (addresses 2.., the store has
+   0 and 1), the two mixes of sample 0 with sample 1 are equal, the self-mix is sample 0, the store is unchanged *)
+Example aliasing_history_example :
+  let '(h', rs) := run_history st_ex c_al [(0%nat, dr_other); (0%nat, dr_self); (0%nat, dr_other)] h_ex in
+  rs = [Ok 2%nat; Ok 4%nat; Ok 6%nat] /\
+  map flatten (firstn 2 h') = [[1; 2]%Q; [10; 20]%Q] /\
+  Forall2 Qeq (flatten (deref h' 2)) [31 # 4; 31 # 2]%Q /\ Forall2 Qeq (flatten (deref h' 6)) [31 # 4; 31 # 2]%Q /\
+  Forall2 Qeq (flatten (deref h' 4)) [1; 2]%Q.
+Proof. vm_compute. repeat split; repeat constructor. Qed.
+
+(* BEFORE the repair (x.mul_(x_lamb).add_(x2.mul_(1. - x_lamb)) on what the dataset returned): with the stored tensors
+   handed out, partner == idx gives 2*lam*(1-lam)*x = 3/8*x and overwrites the stored sample; another partner is
+   overwritten with (1-lam)*x2 and sample idx with the mix *)
+Example unrepaired_inplace_refuted :
+  (let '(h', a) := h_mix_inplace h_ex (1 # 4) 0 0 in
+   a = 0%nat /\ Forall2 Qeq (flatten (deref h' 0)) [3 # 8; 3 # 4]%Q) /\
+  (let '(h', a) := h_mix_inplace h_ex (1 # 4) 0 1 in
+   a = 0%nat /\ Forall2 Qeq (flatten (deref h' 0)) [31 # 4; 31 # 2]%Q /\ Forall2 Qeq (flatten (deref h' 1)) [15 # 2; 15]%Q).
+Proof. vm_compute. repeat split; repeat constructor. Qed.
